@@ -1132,7 +1132,23 @@ def _enumerate(interp, args, kwargs, node, env):
     return list(enumerate(interp.iterate(args[0], node)))
 
 
-BUILTINS = {'list': _list, 'set': _set, 'frozenset': _frozenset, 'tuple': _tuple, 'dict': _dict, 'isinstance': _isinstance, 'issubclass': _issubclass, 'hasattr': _hasattr, 'getattr': _getattr, 'setattr': _setattr, 'super': _super,
+def _iter(interp, args, kwargs, node, env):
+    return iter(list(interp.iterate(args[0], node)))
+
+
+def _next(interp, args, kwargs, node, env):
+    it_ = args[0]
+    if not hasattr(it_, '__next__'):
+        raise Unsupported('next() of %s' % key_of(it_))
+    try:
+        return next(it_)
+    except StopIteration:
+        if len(args) > 1:
+            return args[1]
+        raise Raised('StopIteration', node, env.get('__rel__'))
+
+
+BUILTINS = {'list': _list, 'set': _set, 'frozenset': _frozenset, 'iter': _iter, 'next': _next, 'tuple': _tuple, 'dict': _dict, 'isinstance': _isinstance, 'issubclass': _issubclass, 'hasattr': _hasattr, 'getattr': _getattr, 'setattr': _setattr, 'super': _super,
             'len': _len, 'dir': _dir, 'print': _print, 'sorted': _sorted, 'range': _range, 'zip': _zip, 'enumerate': _enumerate, 'abs': _b(abs), 'max': _b(max), 'min': _b(min),
             'float': _b(float), 'int': _b(int), 'str': _b(str), 'bool': _b(bool), 'sum': _b(sum), 'round': _b(round), 'any': _b(any), 'all': _b(all),
             'True': True, 'False': False, 'None': None, 'object': Opaque('object'), 'RuntimeError': Opaque('RuntimeError'), 'ValueError': Opaque('ValueError'),
